@@ -274,3 +274,29 @@ Proof.
 Qed.
 
 End Struct.
+
+(* assembling the struct decoder from per-field facts supplied by the caller (used for the
+   containers whose fields are written by hand-written methods) *)
+Lemma assemble_struct : forall sch unm d vs bs al ess N t,
+  all_supported (struct_fields d) = true ->
+  (String.eqb (xmlname_tag d) "" || String.eqb (xmlname_tag d) N) = true ->
+  parents_ok (struct_fields d) = true ->
+  nodup_strb (attr_names sch (struct_fields d)) = true ->
+  nodup_strb (elem_keys sch (struct_fields d)) = true ->
+  marshal_attrs sch (struct_fields d) vs = Ok al ->
+  Forall3 (attr_field_rt sch) (struct_fields d) vs bs ->
+  Forall3 (fun f (vb : value * value) es =>
+             own_names sch f es /\ (is_elem f = true -> absorb_kids sch unm f (snd vb) es = Ok (fst vb)))
+          (struct_fields d) (combine vs (after_attrs (struct_fields d) vs bs)) ess ->
+  List.length (struct_fields d) = List.length vs -> List.length vs = List.length bs ->
+  after_kids (struct_fields d) vs (after_attrs (struct_fields d) vs bs) = vs ->
+  unmarshal_struct sch unm d (VStruct bs) (Elem N al (List.concat ess) t) = Ok (VStruct vs).
+Proof.
+  intros sch unm d vs bs al ess N t Hsup Hxn Hpo Hnda Hndk Hal Hrt Hk Hl1 Hl2 Hfin.
+  replace (Ok (VStruct vs)) with (@Ok value (VStruct (after_kids (struct_fields d) vs (after_attrs (struct_fields d) vs bs))))
+    by (rewrite Hfin; reflexivity).
+  apply unmarshal_struct_fieldwise with (st1 := after_attrs (struct_fields d) vs bs); try assumption.
+  + cbn [xattrs]. apply attrs_roundtrip; assumption.
+  + cbn [xkids]. apply kids_roundtrip; [exact Hndk | exact Hk|].
+    rewrite after_attrs_length; [reflexivity | exact Hl1 | exact Hl2].
+Qed.
